@@ -534,12 +534,8 @@ def replay(v):
             if point[0] == "effect":
                 st = replay_log(dict(state), log[: point[1]])
             else:
-                # handle ids differ between executions: map by order of appearance
-                hids = [e[1] for e in log if e[0] == "open"]
-                first = min(h for h, _ in point[2]) if point[2] else 0
-                rec_hids = sorted({h for h, _ in point[2]})
-                # the recorded handles are numbered in order of opening within their run
-                opened = [e[1] for e in log[: point[1]] if e[0] == "open"]
+                # handle ids differ between executions; the handles at risk are matched in
+                # the order in which they were opened
                 risk = sorted(_at_risk(log[: point[1]]))
                 lengths = {rh: n for rh, (_, n) in zip(risk, sorted(point[2]))}
                 st = replay_log(dict(state), log[: point[1]], lengths)
